@@ -306,7 +306,7 @@ def r_C19a_C01(root):
         for o in need: mm_["." + o] = ("opt", o)
         if with_comment: mm_["Comment"] = {"._tx_peg_rule": peg_c, ".kind": "cls"}
         root_rule = {".kind": "root-rule"}
-        env = {"__functions__": {k_: v_ for k_, v_ in helper_functions(root, L, "TextXVisitor.visit_textx_model").items() if k_.startswith("_") and not k_.startswith("__")}, vps[0]: {".metamodel": mm_, ".kind": "visitor"}, vps[1]: {".kind": "node"}, vps[2]: [root_rule], "get_model_parser": _pe.PyFn(_gmp)}
+        env = {"__functions__": {k_: v_ for k_, v_ in helper_functions(root, L, "TextXVisitor.visit_textx_model").items() if k_.startswith("_") and not k_.startswith("__")}, vps[0]: {".metamodel": mm_, ".kind": "visitor", ".grammar_parser": dict({".kind": "grammar-parser", ".file": ("grammar-parser", "file")}, **{"." + o_: ("grammar-parser", o_) for o_ in need}), ".debug": False}, vps[1]: {".kind": "node"}, vps[2]: [root_rule], "get_model_parser": _pe.PyFn(_gmp)}
         try: res_ = _pe.run_block(vm.body, env); err_ = None
         except _pe.Raised as r_: res_ = None; err_ = "raises " + r_.cls
         except _pe.Unsupported as u_: raise AnalysisError("visit_textx_model: outside the evaluated subset: %s" % u_)
@@ -319,7 +319,7 @@ def r_C19a_C01(root):
                 okk = kw_.get(o) == ("opt", o)
                 for pr, ru in [("C01", "C01.d")] + ([OPT_PROP[o]] if o in OPT_PROP else []):
                     ob(pr, ru, L, "TextXVisitor.visit_textx_model", "option %s reaches get_model_parser as the meta-model's %s" % (o, o), okk)
-                    if not okk: out.append(Finding(pr, ru, L, "TextXVisitor.visit_textx_model", "get_model_parser(... %s ...)" % o, "parser option %r of the metamodel is not forwarded to the model parser (it arrives as %s)" % (o, "nothing" if o not in kw_ else "the meta-model's %s" % (kw_[o][1] if isinstance(kw_[o], tuple) else kw_[o],))))
+                    if not okk: out.append(Finding(pr, ru, L, "TextXVisitor.visit_textx_model", "get_model_parser(... %s ...)" % o, "parser option %r of the metamodel is not forwarded to the model parser (it arrives as %s)" % (o, "nothing" if o not in kw_ else ("the %s's %s" % ("meta-model" if kw_[o][0] == "opt" else kw_[o][0], kw_[o][1]) if isinstance(kw_[o], tuple) else repr(kw_[o])))))
         inst += 1
         okc_ = top_ is root_rule and (cm_ is peg_c if with_comment else cm_ is None) and isinstance(res_, dict) and res_.get(".metamodel") is mm_
         ob("C01", "C01.d", L, "TextXVisitor.visit_textx_model", "root rule, Comment rule (%s) and meta-model handed to the parser" % ("present" if with_comment else "absent"), okc_)
